@@ -250,4 +250,128 @@ theorem importEdits_off (doc : Doc) (locs : List (Pos × Pos)) (rnd : α → Tex
   | delete x => rfl
   | replace x y => rfl
 
+
+/-! ## Lines, `flatten`, `off` -/
+
+theorem splitLines_ne_nil (t : Text) : splitLines t ≠ [] := by
+  cases t with
+  | nil => simp [splitLines]
+  | cons b t =>
+    simp only [splitLines]
+    split
+    · simp
+    · split <;> simp
+
+theorem flatten_cons_cons (a b : Text) (rest : Doc) :
+    flatten (a :: b :: rest) = a ++ sepNL ++ flatten (b :: rest) := by
+  simp [flatten, joinSep]
+
+theorem flatten_splitLines_aux (t : Text) : flatten (splitLines t) = t := by
+  induction t with
+  | nil => simp [splitLines, flatten, joinSep]
+  | cons b t ih =>
+    simp only [splitLines]
+    split
+    · rename_i hb
+      subst hb
+      have hne := splitLines_ne_nil t
+      cases hs : splitLines t with
+      | nil => exact absurd hs hne
+      | cons l ls =>
+        rw [flatten_cons_cons, ← hs, ih]
+        simp [sepNL]
+    · cases hs : splitLines t with
+      | nil => exact absurd hs (splitLines_ne_nil t)
+      | cons l ls =>
+        simp only
+        rw [hs] at ih
+        cases ls with
+        | nil =>
+          simp only [flatten, joinSep] at ih ⊢
+          rw [ih]
+        | cons l2 ls2 =>
+          rw [flatten_cons_cons] at ih ⊢
+          rw [← ih]
+          simp
+
+theorem foldl_len_add (xs : Doc) (a : Nat) :
+    xs.foldl (fun a l => a + l.length + 1) a = a + xs.foldl (fun a l => a + l.length + 1) 0 := by
+  induction xs generalizing a with
+  | nil => simp
+  | cons x xs ih =>
+    simp only [List.foldl_cons]
+    rw [ih (a + x.length + 1), ih (0 + x.length + 1)]
+    omega
+
+theorem off_succ (a : Text) (doc : Doc) (l c : Nat) :
+    off (a :: doc) (l + 1, c) = a.length + 1 + off doc (l, c) := by
+  simp only [off, List.take_succ_cons, List.foldl_cons]
+  rw [foldl_len_add]
+  omega
+
+theorem off_line_aux (doc : Doc) :
+    ∀ (l : Nat) (hl : l < doc.length),
+      ((flatten doc).drop (off doc (l, 0))).take doc[l].length = doc[l] ∧
+        off doc (l, 0) + doc[l].length ≤ (flatten doc).length := by
+  induction doc with
+  | nil => intro l hl; simp at hl
+  | cons a doc ih =>
+    intro l hl
+    cases l with
+    | zero =>
+      cases doc with
+      | nil => simp [off, flatten, joinSep]
+      | cons b rest =>
+        rw [flatten_cons_cons]
+        simp [off]
+    | succ l =>
+      have hl' : l < doc.length := by simpa using hl
+      cases doc with
+      | nil => simp at hl'
+      | cons b rest =>
+        rw [off_succ, flatten_cons_cons]
+        obtain ⟨h1, h2⟩ := ih l hl'
+        have hd : (a ++ sepNL ++ flatten (b :: rest)).drop (a.length + 1 + off (b :: rest) (l, 0)) =
+            (flatten (b :: rest)).drop (off (b :: rest) (l, 0)) := by
+          have : (a ++ sepNL).length = a.length + 1 := by simp [sepNL]
+          rw [← this, ← List.drop_drop, List.drop_left']
+          rfl
+        simp only [List.getElem_cons_succ]
+        rw [hd]
+        refine ⟨h1, ?_⟩
+        simp only [List.length_append, sepNL, List.length_cons, List.length_nil]
+        omega
+
+
+/-! ## Toplevel `Err` path -/
+
+theorem toplevelEdits_off_empty (doc : Doc) (locsI : List (Pos × Pos)) (rnd : α → Text) (s : Script α) :
+    (toplevelEdits locsI [] rnd s).map (fun ed => (off doc ed.start, off doc ed.stop, ed.text)) =
+      toOffEdits
+        (fun _ => off doc (if locsI.isEmpty then ((0, 0) : Pos) else locStop locsI (locsI.length - 1)))
+        (fun _ => off doc (if locsI.isEmpty then ((0, 0) : Pos) else locStop locsI (locsI.length - 1))) rnd s := by
+  simp only [toplevelEdits, toOffEdits, List.map_map]
+  apply List.map_congr_left
+  intro ch _
+  obtain ⟨p, c⟩ := ch
+  cases c with
+  | insert it ld =>
+    simp only [Function.comp, rangeOfPosT, rangeOf, List.isEmpty_nil, ↓reduceIte]
+    split <;> (split <;> rfl)
+  | delete x => simp [Function.comp, rangeOfPosT, rangeOf]
+  | replace x y => simp [Function.comp, rangeOfPosT, rangeOf]
+
+theorem toplevelEdits_off_nonempty (doc : Doc) (locsI locsT : List (Pos × Pos)) (hne : locsT ≠ [])
+    (rnd : α → Text) (s : Script α) :
+    toplevelEdits locsI locsT rnd s = importEdits locsT rnd s := by
+  have : locsT.isEmpty = false := by cases locsT <;> simp_all
+  simp [toplevelEdits, importEdits, rangeOfPosT, this]
+
+theorem validTrace_nil_old (new : List α) (tr : Trace) (hv : ValidTrace [] new tr) : tr = [] := by
+  cases tr with
+  | nil => rfl
+  | cons p tr =>
+    obtain ⟨x, y⟩ := p
+    simp [ValidTrace, ValidFrom] at hv
+
 end SamVerif.Differ
